@@ -34,6 +34,11 @@ fuzz_target!(|data: &[u8]| {
         if w.rdh.data_format() == 0 && payload.len() % 16 != 0 {
             layout_ok = false;
         }
+        // well-framed: the payload announced by memory_size must end where the next packet starts or before it;
+        // a memory_size beyond offset_next makes consecutive packets overlap (word offsets are then not monotone)
+        if w.payload_end > w.offset as usize + w.rdh.offset_next as usize {
+            layout_ok = false;
+        }
         let key = if mode.stave() { w.rdh.fee_id as u32 } else { w.rdh.link_id as u32 };
         groups.entry(key).or_default().push((bytes[w.offset as usize..w.offset as usize + 64].to_vec(), if mode.its() { payload.to_vec() } else { vec![] }, w.offset));
     }
